@@ -3,18 +3,25 @@ import glob, json, os
 import vlib
 
 PROOFS = ["C05/Refuted.vo", "C05/ProofsBase.vo", "C05/ProofsChol.vo", "C05/ProofsLdl.vo", "C05/ProofsHouse.vo", "C05/ProofsGivens.vo",
-          "C05/ResidProofs.vo"]
+          "C05/ResidProofs.vo", "C05/ProofsHouse2.vo", "C05/ProofsBlock.vo", "C05/ProofsTrace.vo", "C05/ProofsHess.vo",
+          "C05/ProofsGS.vo", "C05/ProofsLdl2.vo", "C05/ProofsChol2.vo", "C05/ProofsTridiag.vo", "C05/ProofsBidiag.vo"]
 TARGETS = ["Base/Num.vo", "Base/Corr.vo", "C05/Model.vo", "C05/Corr.vo", "C05/Resid.vo", "C05/Spec.vo", "C05/SpecTest.vo"] \
           + PROOFS + ["C05/Props.vo"]
 PROPS = ["C05/Props.v"]
-PARTIAL = ("Theorems (over R, all sizes) cover the direct routines: Cholesky, LDL, forced-PD LDL, Householder vector and "
-           "application, Givens rotation. They are about the hand-written model coq/C05/Model.v, tied to the Go code by "
-           "bit-exact replay on primitive floats (Float64 fast path and Real64 generic path). Gram-Schmidt, Hessenberg, "
-           "bi- and tridiagonalisation are modelled and tied bit-exactly but their reduction theorems are not proved. "
-           "The iterative routines (QR algorithm, SVD, eigensystem, msqrt, msqrtInv) have no closed model: every run is "
-           "decided by the exact residual checker C05.Resid (Coq, integer arithmetic, soundness lemma proved) on the "
-           "generated families; convergence, sorting and sign normalisation are not proved for all inputs. The step from "
-           "exact arithmetic to binary64 is bounded per sampled case only.")
+PARTIAL = ("Theorems (over R, all sizes) cover the direct routines: Cholesky (soundness and completeness), LDL, forced-PD LDL "
+           "(incl. equality with LDL when the bounds are inactive), Householder vector (P x = +-|x| e1) and application "
+           "(= P M / M P), Givens rotation, Gram-Schmidt at HEAD (Q R = A unconditionally, R upper triangular, buffer "
+           "independence, Q^T Q = I for independent columns) and the Hessenberg reduction (U orthogonal, U H U^T = A, H upper "
+           "Hessenberg) and the bidiagonalisation at HEAD (U, V orthogonal, U B V^T = A, B upper bidiagonal). They are about the hand-written model coq/C05/Model.v, tied to the Go code by bit-exact replay on "
+           "primitive floats (Float64 fast path and Real64 generic path). Tridiagonalisation is modelled at HEAD and tied bit-exactly, but its "
+           "reduction theorem is not proved (only the guard of the fix: a reflection is applied iff the column is not yet "
+           "reduced; missing: the symmetric rank-2 update identity). The iterative routines (QR algorithm, SVD, eigensystem, msqrt, msqrtInv) have no "
+           "closed model: the trace-machine invariant (any sequence of valid Givens/reflector steps preserves U H U^T resp. "
+           "U B V^T and orthogonality) is proved but NOT tied to the Go iteration (step parameters are not logged); every run "
+           "is decided by the exact residual checker C05.Resid (Coq, integer arithmetic, soundness lemma proved) demanding the "
+           "full contract on the generated families incl. dense inputs of every size 1..8; convergence, termination, sorting "
+           "and sign normalisation are not proved for all inputs. The step from exact arithmetic to binary64 is bounded per "
+           "sampled case only.")
 KF_PROPOSED = os.path.join(vlib.ROOT, "corpus/C05/known_findings_proposed.json")
 CORPUS = os.path.join(vlib.ROOT, "corpus/C05/corpus.json")
 
@@ -28,8 +35,21 @@ def _mat(inp):
     return r, c, v
 
 
+def pred_qr_hang_prone(inp):
+    """inputs on which an exactly stationary 2x2 block [[a,b],[c,a]], bc > 0, or a stalled symmetric deflation
+    can arise: symmetric matrices, and matrices whose entries are all small half-integers (integer families,
+    permutations, companions).  A generic dense float matrix is NOT in this class: a hang there is a violation."""
+    r, c, v = _mat(inp)
+    if r < 2 or r != c:
+        return False
+    sym = all(v[i * c + j] == v[j * c + i] for i in range(r) for j in range(i))
+    halfint = all(x == x and abs(x) <= 64 and (2 * x) == int(2 * x) for x in v)
+    return sym or halfint
+
+
 PREDS = {
     "n_ge2": lambda inp: _mat(inp)[0] >= 2,
+    "qr_hang_prone": pred_qr_hang_prone,
     # set by the harness on an svd call that did not return: the Householder bidiagonal form of
     # the input has B[k,k] == 0 exactly with B[k-1,k] != 0 (computed by the library's own routine)
     "svd_zero_diag_block_end": lambda inp: bool((inp.get("diag") or {}).get("zero_diag_block_end")),
